@@ -17,13 +17,29 @@
      C15_marker_token_resets           whenever a step queues a document marker at flow level 0
      C15_marker_then_newline           ... and after the following line break simple keys are allowed again
      C15_stream_start_config           the configuration they are compared with
-   Not proved: the character-level locality "tokens(A ... B) = tokens(A) DocumentEnd tokens(B) shifted" (needs the
-   prefix stability of every scalar scanner at a marker line and the position-shift equivariance of the scanner);
-   exercised on the implementation by the concatenation oracle of check_C15. *)
+   SCANNER, TAIL INDEPENDENCE (string input; Proofs/ScanShift*.v):
+     C15_scanner_step_shift, C15_scanner_fetch_more_shift, C15_scanner_next_token_shift, C15_scanner_scan_shift
+                                       the scanner is equivariant under a shift of the position: two states with
+                                       the same remaining text, side 2 [d] further down the stream, deliver the
+                                       same tokens shifted by [d] and end the same way
+     C15_adjacent_never_in_future      a by-product: sc_adjacent <= current index in every reachable state
+     C15_boundary_relation             the marker configuration at a line start IS the state after StreamStart of the
+                                       remaining text alone, shifted to the position of the boundary
+     C15_tail_independence             from a boundary state the scanner delivers the tokens of the remaining text
+                                       alone, StreamStart removed, shifted; same end
+     C15_tail_independence_text        the same for the scanner run inside run_str
+     C15_parser_position_shift         the parser commutes with the shift of all positions
+     C15_accepted_tokens_wf            the tokens of an accepted text are StreamStart ... StreamEnd, StreamEnd only last
+     C15_glued_tokens, C15_text_composition   under hypothesis (i): tokens / events of A "...\n" B from those of A and B
+   Not proved: (i) that the scanner of A "..." B reaches the boundary having delivered tokens(A) - StreamEnd and
+   DocumentEnd (prefix stability of every scalar scanner at a marker line): it is the named hypothesis
+   [ScanShiftDoc.boundary_reached] of C15_text_composition; exercised on the implementation by the concatenation
+   oracle of check_C15. *)
 From Coq Require Import List NArith ZArith Bool.
 Import ListNotations.
 Require Import Parser Grammar SBase SPrim SDir SScalar SFetch Pipe C02run.
 Require Import DocReset DocRun DocShift DocSim DocIndep DocIndepRun ScanFrame DocScan.
+Require Import ScanShift ScanShiftTop ScanShiftParse ScanShiftDoc.
 
 (* ------------------------------------------------------------------------------------------------ *)
 (* parser                                                                                            *)
@@ -159,6 +175,127 @@ Proof. exact @stream_start_config. Qed.
 Print Assumptions C15_stream_start_config.
 
 (* ------------------------------------------------------------------------------------------------ *)
+(* scanner: tail independence (position-shift equivariance), string input                             *)
+(*   [SH d s1 s2] (ScanShift.v): the two states hold the SAME remaining text; every marker of s2 (current mark, spans  *)
+(*   of queued tokens, marks of live simple keys) is the marker of s1 with index + sh_i d, line + sh_l d, same     *)
+(*   column; sc_tokens_parsed and the token numbers of live simple keys are sh_k d larger; flags, indents, flow   *)
+(*   level, sc_ifms are equal; sc_adjacent is related as far as it is observable (inside a flow collection).       *)
+(*   [swp d m1 m2 Q s1 s2]: both runs Ok => Q; both Err => same site, marker shifted; Ok against Err impossible;  *)
+(*   Panic / OutOfFuel on either side: no claim (C01 excludes them).                                              *)
+(* ------------------------------------------------------------------------------------------------ *)
+Theorem C15_scanner_step_shift : forall (d : shift) (F1 F2 : nat) (s1 s2 : sc strin), SH d s1 s2 ->
+  swp d (fetch_next_token str_ops F1) (fetch_next_token str_ops F2) (bpost d eq) s1 s2.
+Proof. exact fetch_next_token_shift. Qed.
+Print Assumptions C15_scanner_step_shift.
+
+Theorem C15_scanner_fetch_more_shift : forall (d : shift) (F1 F2 n1 n2 : nat) (s1 s2 : sc strin), SH d s1 s2 ->
+  swp d (fetch_more_tokens str_ops F1 n1) (fetch_more_tokens str_ops F2 n2) (bpost d eq) s1 s2.
+Proof. exact fetch_more_tokens_shift. Qed.
+Print Assumptions C15_scanner_fetch_more_shift.
+
+Theorem C15_scanner_next_token_shift : forall (d : shift) (F1 F2 : nat) (s1 s2 : sc strin), SH d s1 s2 ->
+  match next_token str_ops F1 s1, next_token str_ops F2 s2 with
+  | SBase.Ok (o1, t1), SBase.Ok (o2, t2) => o2 = option_map (sht d) o1 /\ SH d t1 t2
+  | SBase.Err e1 k1, SBase.Err e2 k2 => e1 = e2 /\ k2 = shm d k1
+  | SBase.Ok _, SBase.Err _ _ | SBase.Err _ _, SBase.Ok _ => False
+  | _, _ => True
+  end.
+Proof. exact next_token_shift_fun. Qed.
+Print Assumptions C15_scanner_next_token_shift.
+
+Theorem C15_scanner_scan_shift : forall (d : shift) (F1 F2 n1 n2 : nat) (s1 s2 : sc strin) (acc : list token),
+  SH d s1 s2 ->
+  let r1 := scan_all str_ops F1 n1 s1 acc in
+  let r2 := scan_all str_ops F2 n2 s2 (map (sht d) acc) in
+  ES d (snd r1) (snd r2)
+  /\ (proper_end (snd r1) -> proper_end (snd r2) -> fst r2 = map (sht d) (fst r1) /\ snd r2 = she d (snd r1)).
+Proof. exact scan_all_shift. Qed.
+Print Assumptions C15_scanner_scan_shift.
+
+Theorem C15_adjacent_never_in_future : forall (F : nat) (s : sc strin),
+  reach str_ops F s -> (sc_adjacent s <= m_index (sc_mark s))%N.
+Proof. exact reach_adj_ok. Qed.
+Print Assumptions C15_adjacent_never_in_future.
+
+(* the hypotheses on the skeleton are exactly the conclusions of C15_marker_token_resets + C15_marker_then_newline
+   (or of C15_stream_start_config); the others say where the scanner stands: at the start of a line, nothing queued *)
+Theorem C15_boundary_relation : forall s : sc strin,
+  marker_config s -> sc_ska s = true ->
+  m_col (sc_mark s) = 0%N -> (1 <= m_line (sc_mark s))%N -> sc_lws s = true ->
+  sc_tokens s = [] -> sc_token_available s = false -> sc_stream_end s = false ->
+  (sc_adjacent s <= m_index (sc_mark s))%N -> (1 <= sc_tokens_parsed s)%N -> Nat.eqb (si_look (sc_in s)) 0 = false ->
+  SH {| sh_i := m_index (sc_mark s); sh_l := m_line (sc_mark s) - 1; sh_k := sc_tokens_parsed s - 1 |}
+     (start_state (si_chars (sc_in s))) s.
+Proof. exact SH_boundary. Qed.
+Print Assumptions C15_boundary_relation.
+
+(* [sm]: a state in the marker configuration (C15_marker_token_resets) whose queue has been delivered, standing at
+   the line break that ends the marker line; [boundary_text sm] the text behind that break, [boundary_shift sm] its
+   position (characters, lines, tokens before it) *)
+Theorem C15_tail_independence : forall sm : sc strin,
+  marker_config sm -> is_break (nth 0 (si_chars (sc_in sm)) 0%N) = true ->
+  sc_tokens sm = [] -> sc_token_available sm = false -> sc_stream_end sm = false ->
+  (sc_adjacent sm <= m_index (sc_mark sm))%N -> (1 <= sc_tokens_parsed sm)%N ->
+  forall (f1 F2 n1 n2 : nat) (acc : list token),
+  let d := boundary_shift sm in
+  let r1 := scan_all str_ops (S (S f1)) (S n1) (init_sc {| si_chars := boundary_text sm; si_look := 0 |}) [] in
+  let r2 := scan_all str_ops (S F2) n2 sm acc in
+  ES d (snd r1) (snd r2)
+  /\ (proper_end (snd r1) -> proper_end (snd r2) ->
+      fst r2 = rev acc ++ map (sht d) (tl (fst r1)) /\ snd r2 = she d (snd r1)).
+Proof. exact tail_independence. Qed.
+Print Assumptions C15_tail_independence.
+
+Theorem C15_tail_independence_text : forall (X : list N) (k : nat) (pre : list token) (sm : sc strin),
+  deliver (str_F X) k (init_sc {| si_chars := X; si_look := 0 |}) = Some (pre, sm) -> (k <= 4 * str_F X + 20)%nat ->
+  marker_config sm -> is_break (nth 0 (si_chars (sc_in sm)) 0%N) = true ->
+  sc_tokens sm = [] -> sc_token_available sm = false -> sc_stream_end sm = false -> (1 <= sc_tokens_parsed sm)%N ->
+  let d := boundary_shift sm in
+  let rB := str_scan (boundary_text sm) in
+  let rX := str_scan X in
+  ES d (snd rB) (snd rX)
+  /\ (proper_end (snd rB) -> proper_end (snd rX) ->
+      fst rX = pre ++ map (sht d) (tl (fst rB)) /\ snd rX = she d (snd rB)).
+Proof. exact tail_independence_text. Qed.
+Print Assumptions C15_tail_independence_text.
+
+(* ------------------------------------------------------------------------------------------------ *)
+(* text level: scanner tail independence + parser composition, under hypothesis (i)                   *)
+(* ------------------------------------------------------------------------------------------------ *)
+(* the parser never looks inside a marker: shifting every position of the tokens shifts the event spans, nothing else *)
+Theorem C15_parser_position_shift : forall (d : shift) (toks : list token) (keep : bool) (evs : list (event * span)),
+  accepts toks keep evs -> accepts (map (sht d) toks) keep (map (eev d) evs).
+Proof. exact accepts_shift_pos. Qed.
+Print Assumptions C15_parser_position_shift.
+
+(* (i) [boundary_reached A B] (ScanShiftDoc.v): the scanner of A "...\n" B delivers tokens(A) - StreamEnd and a DocumentEnd
+   token and then stands, queue delivered, in the marker configuration at the line break behind the marker, B behind it *)
+Theorem C15_glued_tokens : forall A B : list N, boundary_reached A B ->
+  exists spd d, fst (str_scan (glue_text A B))
+                = removelast (fst (str_scan A)) ++ (spd, TDocumentEnd) :: map (sht d) (tl (fst (str_scan B)))
+             /\ snd (str_scan (glue_text A B)) = she d (snd (str_scan B)).
+Proof. exact glued_tokens. Qed.
+Print Assumptions C15_glued_tokens.
+
+(* the tokens of an accepted text: StreamStart first, StreamEnd last and nowhere else (the iterator stops behind
+   StreamEnd; the parser accepts no token list without one: C06's flow_balanced) *)
+Theorem C15_accepted_tokens_wf : forall (y : list N) (evs : list (event * span)),
+  run_str y = (evs, PDone) ->
+  exists ss t sps, fst (str_scan y) = ss :: t ++ [(sps, TStreamEnd)] /\ snd ss = TStreamStart
+                   /\ Forall (fun x => snd x <> TStreamEnd) t.
+Proof. exact accepted_tokens_wf. Qed.
+Print Assumptions C15_accepted_tokens_wf.
+
+Theorem C15_text_composition : forall (A B : list N) (evA evB : list (event * span)),
+  run_str A = (evA, PDone) -> run_str B = (evB, PDone) -> boundary_reached A B ->
+  exists evC, run_str (glue_text A B) = (evC, PDone)
+    /\ DocRun.evs_of evC
+       = removelast (DocRun.evs_of evA)
+         ++ map (shift_ev (count_anchored (DocRun.evs_of evA))) (tl (DocRun.evs_of evB)).
+Proof. exact text_composition. Qed.
+Print Assumptions C15_text_composition.
+
+(* ------------------------------------------------------------------------------------------------ *)
 (* examples: the hypotheses are satisfiable, the statements are not trivially true                    *)
 (* ------------------------------------------------------------------------------------------------ *)
 Local Open Scope N_scope.
@@ -218,4 +355,100 @@ Proof.
   destruct E as (s & E & EF & l & sp & ET). exists s. split; [exact E|].
   split; [eapply fetches_SkInv; [apply SkInv_init|exact E]|]. split; [exact EF|].
   exists l, sp, TDocumentEnd. auto.
+Qed.
+
+(* ------------------------------------------------------------------------------------------------ *)
+(* tail independence on the regression input "{x}\n...\n[ : ]\n": every hypothesis of                   *)
+(* C15_tail_independence_text is discharged by the theorems above                                     *)
+(* ------------------------------------------------------------------------------------------------ *)
+Definition ex_B : list N := [91;32;58;32;93;10].                       (* "[ : ]\n" *)
+Definition ex_A : list N := [123;120;125;10].                          (* "{x}\n" *)
+Definition ex_spd : span := {| sp_start := {| m_index := 4; m_line := 2; m_col := 0 |};
+                               sp_end := {| m_index := 7; m_line := 2; m_col := 3 |} |}.
+Definition ex_init : sc strin := init_sc {| si_chars := ex_text; si_look := 0 |}.
+(* The Scanner iterator, having delivered the five tokens of "{x}\n...", stands in state [sm]: it is the state [s5]
+   reached by the fetch step that queued the marker, with the queue delivered.  (Closed computations.) *)
+Example ex_facts :
+  exists s4 s5 pre sm,
+    fetches str_ops (str_F ex_text) 4 ex_init = Some s4
+    /\ fetch_next_token str_ops (str_F ex_text) s4 = SBase.Ok (tt, s5)
+    /\ deliver (str_F ex_text) 5 ex_init = Some (pre, sm)
+    /\ sc_flow_level s5 = 0 /\ (exists l sp, sc_tokens s5 = l ++ [(sp, TDocumentEnd)])
+    /\ sm = set_tp 5 (set_ta false (set_tokens [] s5))
+    /\ map snd pre = [TStreamStart; TFlowMappingStart; TScalar Plain [120]; TFlowMappingEnd; TDocumentEnd]
+    /\ pre = removelast (fst (str_scan ex_A)) ++ [(ex_spd, TDocumentEnd)]
+    /\ is_break (nth 0 (si_chars (sc_in sm)) 0) = true /\ sc_tokens sm = [] /\ sc_token_available sm = false
+    /\ sc_stream_end sm = false /\ (1 <= sc_tokens_parsed sm)
+    /\ boundary_text sm = ex_B /\ boundary_shift sm = {| sh_i := 8; sh_l := 2; sh_k := 4 |}.
+Proof.
+  eexists _, _, _, _.
+  split; [vm_compute; reflexivity|]. split; [vm_compute; reflexivity|]. split; [vm_compute; reflexivity|].
+  split; [vm_compute; reflexivity|]. split; [eexists [_; _; _; _], _; vm_compute; reflexivity|].
+  repeat (split; [vm_compute; reflexivity|]). split; [vm_compute; discriminate|]. split; vm_compute; reflexivity.
+Qed.
+(* C15_marker_token_resets gives the marker configuration of [s5], hence of [sm]: all hypotheses of
+   C15_tail_independence_text hold *)
+Example boundary_hypotheses :
+  exists pre sm,
+    deliver (str_F ex_text) 5 ex_init = Some (pre, sm)
+    /\ map snd pre = [TStreamStart; TFlowMappingStart; TScalar Plain [120]; TFlowMappingEnd; TDocumentEnd]
+    /\ pre = removelast (fst (str_scan ex_A)) ++ [(ex_spd, TDocumentEnd)]
+    /\ marker_config sm
+    /\ is_break (nth 0 (si_chars (sc_in sm)) 0) = true /\ sc_tokens sm = [] /\ sc_token_available sm = false
+    /\ sc_stream_end sm = false /\ (1 <= sc_tokens_parsed sm)
+    /\ boundary_text sm = ex_B /\ boundary_shift sm = {| sh_i := 8; sh_l := 2; sh_k := 4 |}.
+Proof.
+  destruct ex_facts as (s4 & s5 & pre & sm & E4 & E5 & ED & EF & (l & sp & ET) & ES & EP & EPre & R).
+  exists pre, sm. split; [exact ED|]. split; [exact EP|]. split; [exact EPre|]. split; [|exact R].
+  assert (HC : marker_config s5 /\ sc_ska s5 = false).
+  { apply (C15_marker_token_resets _ str_ops (str_F ex_text) s4 tt s5); [|exact E5|exact EF|].
+    - eapply fetches_SkInv; [apply SkInv_init|exact E4].
+    - exists l, sp, TDocumentEnd. auto. }
+  rewrite ES. exact (proj1 HC).
+Qed.
+(* hence, by C15_tail_independence_text: the tokens of the whole text are the five tokens delivered before the
+   boundary followed by the tokens of "[ : ]\n" scanned alone, StreamStart removed, shifted by 8 characters / 2 lines *)
+Example tail_independence_applied :
+  exists pre, map snd pre = [TStreamStart; TFlowMappingStart; TScalar Plain [120]; TFlowMappingEnd; TDocumentEnd]
+    /\ fst (str_scan ex_text) = pre ++ map (sht {| sh_i := 8; sh_l := 2; sh_k := 4 |}) (tl (fst (str_scan ex_B)))
+    /\ snd (str_scan ex_text) = she {| sh_i := 8; sh_l := 2; sh_k := 4 |} (snd (str_scan ex_B)).
+Proof.
+  destruct boundary_hypotheses as (pre & sm & ED & EP & _ & HC & HB & ET & EA & EE & ETP & EB & ESh).
+  exists pre. split; [exact EP|].
+  assert (HK : (5 <= 4 * str_F ex_text + 20)%nat) by (apply PeanoNat.Nat.leb_le; vm_compute; reflexivity).
+  pose proof (C15_tail_independence_text ex_text 5 pre sm ED HK HC HB ET EA EE ETP) as H.
+  cbn zeta in H. rewrite EB, ESh in H. apply H; vm_compute; exact I.
+Qed.
+(* ... and the statement is not vacuous: the shifted tokens really are the tail of the token list *)
+Example tail_independence_tokens :
+  map (fun t => (m_index (sp_start (fst t)), m_line (sp_start (fst t)), snd t)) (skipn 5 (fst (str_scan ex_text)))
+  = [(8, 3, TFlowSequenceStart); (10, 3, TFlowMappingStart); (10, 3, TValue); (12, 3, TFlowMappingEnd);
+     (12, 3, TFlowSequenceEnd); (14, 4, TStreamEnd)]
+  /\ map (fun t => (m_index (sp_start (fst t)), m_line (sp_start (fst t)), snd t)) (tl (fst (str_scan ex_B)))
+  = [(0, 1, TFlowSequenceStart); (2, 1, TFlowMappingStart); (2, 1, TValue); (4, 1, TFlowMappingEnd);
+     (4, 1, TFlowSequenceEnd); (6, 2, TStreamEnd)].
+Proof. split; vm_compute; reflexivity. Qed.
+
+(* ------------------------------------------------------------------------------------------------ *)
+(* the text-level composition on the same input: hypothesis (i) holds, the events are the events of                    *)
+(* "{x}\n" and of "[ : ]\n" glued                                                                      *)
+(* ------------------------------------------------------------------------------------------------ *)
+Example ex_text_is_glued : glue_text ex_A ex_B = ex_text.
+Proof. reflexivity. Qed.
+Example ex_boundary_reached : boundary_reached ex_A ex_B.
+Proof.
+  destruct boundary_hypotheses as (pre & sm & ED & EP & EPre & HC & HB & ET & EA & EE & ETP & EB & _).
+  exists 5%nat, ex_spd, sm. rewrite ex_text_is_glued. rewrite <- EPre.
+  split; [exact ED|]. split; [apply PeanoNat.Nat.leb_le; vm_compute; reflexivity|].
+  repeat (split; [assumption|]). exact EB.
+Qed.
+Example text_composition_applied :
+  exists evA evB evC, run_str ex_A = (evA, PDone) /\ run_str ex_B = (evB, PDone) /\ run_str ex_text = (evC, PDone)
+    /\ C02run.evs_of evC = removelast (C02run.evs_of evA) ++ map (shift_ev (count_anchored (C02run.evs_of evA))) (tl (C02run.evs_of evB)).
+Proof.
+  assert (HA : exists evA, run_str ex_A = (evA, PDone)) by (eexists; vm_compute; reflexivity).
+  assert (HB : exists evB, run_str ex_B = (evB, PDone)) by (eexists; vm_compute; reflexivity).
+  destruct HA as [evA HA], HB as [evB HB].
+  destruct (C15_text_composition ex_A ex_B evA evB HA HB ex_boundary_reached) as (evC & HC & EV).
+  rewrite ex_text_is_glued in HC. exists evA, evB, evC. auto.
 Qed.
